@@ -61,7 +61,14 @@ func VerifC10_HTTPSenderWire() {
 	var addrs []multiaddr.Multiaddr
 	for i := 0; i < nAddrs; i++ {
 		ip := verif_Bytes("ip4", 4)
-		a, aerr := multiaddr.NewMultiaddrBytes([]byte{0x04, ip[0], ip[1], ip[2], ip[3], 0x06, 0x1f, 0x90})
+		raw := []byte{0x04, ip[0], ip[1], ip[2], ip[3], 0x06, 0x1f, 0x90}
+		switch verif_Choose("addressCarriesAnotherPeerID", 0, 2) {
+		case 1: // .../p2p/<another peer>
+			raw = append(raw, 0xa5, 0x03, 0x03, 0x00, 0x01, 0xbb)
+		case 2: // a circuit-relay address: .../p2p/<relay>/p2p-circuit
+			raw = append(raw, 0xa5, 0x03, 0x03, 0x00, 0x01, 0xbb, 0xa2, 0x02)
+		}
+		a, aerr := multiaddr.NewMultiaddrBytes(raw)
 		verif_Assume(aerr == nil)
 		addrs = append(addrs, a)
 	}
